@@ -68,3 +68,25 @@ func verifSumTokens(names []string, order []int) string {
 	b, _ := sum.MarshalText()
 	return string(b)
 }
+
+// VerifHarness_C20_format2: formatting is a function of the plan only. Two plans
+// formatted one after the other (and the first one once more) give files whose
+// bytes do not change behind the caller's back: what Format returned for the
+// first plan still reads the same after later Format calls.
+func VerifHarness_C20_format2() {
+	p1 := &Plan{Version: "1", Name: "first", Changes: []*Change{{Cmd: "CREATE TABLE t1 (c1 int NOT NULL, c2 int NOT NULL, c3 int NOT NULL)", Comment: "create t1"}}}
+	p2 := &Plan{Version: "2", Name: "second", Changes: []*Change{{Cmd: "DROP TABLE t0", Comment: "drop t0"}}}
+	which := verifChoice("formatter", 1)
+	_ = which
+	f1, err := DefaultFormatter.Format(p1)
+	verifAssert(err == nil && len(f1) == 1, "first plan is formatted")
+	before := string(f1[0].Bytes())
+	f2, err := DefaultFormatter.Format(p2)
+	verifAssert(err == nil && len(f2) == 1, "second plan is formatted")
+	verifReach("compared")
+	verifObserve("first", before)
+	verifAssert(string(f1[0].Bytes()) == before, "a formatted file keeps its bytes when another plan is formatted afterwards")
+	f3, err := DefaultFormatter.Format(p1)
+	verifAssert(err == nil && len(f3) == 1 && string(f3[0].Bytes()) == before, "formatting the same plan again gives the same bytes")
+	verifAssert(string(f2[0].Bytes()) != before, "different plans give different files")
+}
